@@ -263,7 +263,9 @@ func (g *tailGuard) ok() bool {
 }
 
 func guardSlice[T comparable](g *tailGuard, s []T, fill T) []T {
-	const extra = 24
+	// the spare capacity must be large enough for whatever the callee might append (another operand, a 32-byte encoding, a whole vector):
+	// with too small a tail `append` reallocates and the sentinels never see the write
+	extra := len(s) + 320
 	arr := make([]T, len(s)+extra)
 	copy(arr, s)
 	for i := len(s); i < len(arr); i++ {
@@ -317,6 +319,78 @@ func montWords(w *big.Int) *big.Int {
 	rinv := new(big.Int).ModInverse(two256, modR)
 	v := new(big.Int).Mul(new(big.Int).Mod(w, modR), rinv)
 	return v.Mod(v, modR)
+}
+
+// limbRelatives: values that a cheap digest of the 64-bit limbs (xor, sum, one limb, a permutation-invariant mix) cannot tell from
+// base, although they differ from it.  All limbs stay below 2^61 so that every relative is below both moduli.  Limb 0 is the least
+// significant.  Used for histories "x, then a relative of x": whatever a call remembers about x must not answer for the relative.
+func limbRelatives(base [4]uint64, p *prg) (names []string, out [][4]uint64) {
+	add := func(n string, v [4]uint64) {
+		if v != base {
+			names = append(names, n)
+			out = append(out, v)
+		}
+	}
+	a, b, c, d := base[0], base[1], base[2], base[3]
+	t := (p.big(60).Uint64() | 1) & (1<<60 - 1)
+	add("swap01", [4]uint64{b, a, c, d})
+	add("swap23", [4]uint64{a, b, d, c})
+	add("reverse", [4]uint64{d, c, b, a})
+	add("rotate", [4]uint64{b, c, d, a})
+	add("xor01", [4]uint64{a ^ t, b ^ t, c, d})
+	add("xor02", [4]uint64{a ^ t, b, c ^ t, d})
+	add("xor13", [4]uint64{a, b ^ t, c, d ^ t})
+	add("sum01", [4]uint64{a + b/2, b - b/2, c, d})
+	add("sum23", [4]uint64{a, b, c + d/2, d - d/2})
+	for i := 0; i < 4; i++ { // equal in limb i only / different in limb i only
+		var only, but [4]uint64
+		for j := 0; j < 4; j++ {
+			only[j] = p.big(60).Uint64()
+			but[j] = base[j]
+		}
+		only[i] = base[i]
+		but[i] = base[i] ^ t
+		add("onlylimb"+string(rune('0'+i)), only)
+		add("butlimb"+string(rune('0'+i)), but)
+	}
+	return
+}
+
+// relatives of ZERO under the same digests: limbs that cancel
+func zeroRelatives(p *prg) (names []string, out [][4]uint64) {
+	k := p.big(60).Uint64() | 1
+	names = []string{"kk00", "k0k0", "kkkk", "00kk", "k00k"}
+	out = [][4]uint64{{k, k, 0, 0}, {k, 0, k, 0}, {k, k, k, k}, {0, 0, k, k}, {k, 0, 0, k}}
+	return
+}
+
+func bigOfWords(l [4]uint64) *big.Int {
+	v := new(big.Int)
+	for i := 3; i >= 0; i-- {
+		v.Lsh(v, 64)
+		v.Add(v, new(big.Int).SetUint64(l[i]))
+	}
+	return v
+}
+
+// montZeroPattern: the canonical value (mod m) whose stored (Montgomery) limbs follow pat, most significant limb first:
+// '0' a zero limb, 'x' a random non-zero limb (top limb kept below the modulus' top limb).  All 16 patterns: every way for code
+// that inspects stored limbs ("fits one word", "upper half is zero") to be misled.
+func montZeroPattern(pat string, m *big.Int, p *prg) *big.Int {
+	w := new(big.Int)
+	for i := 0; i < 4; i++ {
+		w.Lsh(w, 64)
+		if pat[i] == 'x' {
+			l := p.big(64).Uint64() | 1
+			if i == 0 {
+				l = l>>4 | 1 // below the top limb of r and p (0x1cfb.., 0x73ed..)
+			}
+			w.Add(w, new(big.Int).SetUint64(l))
+		}
+	}
+	rinv := new(big.Int).ModInverse(two256, m)
+	v := new(big.Int).Mul(new(big.Int).Mod(w, m), rinv)
+	return v.Mod(v, m)
 }
 
 // named classes "mont:<k>" with k in {1, 5, 255, 2^63, 2^64-1, 2^64, 2^128}
